@@ -32,12 +32,21 @@ type World struct {
 	// package invariants: package path -> clauses (assumed at entry of the package's functions,
 	// proved at the end of the package initialiser and at every return of functions under contract)
 	PkgInv map[string][]*PkgInvariant
+	// refinement: function key of an implementing method -> (impl block, interface method contract)
+	Refines map[string]*Refinement
+	Impls   []*ImplBlock
+}
+
+type Refinement struct {
+	Impl *ImplBlock
+	Con  *Contract // the interface method's contract
+	Fn   *ssa.Function
 }
 
 func loadWorld(p *Program, specDirs []string) (*World, error) {
 	w := &World{P: p, Contracts: map[string]*Contract{}, Funcs: map[string]*SpecFunc{}, AxByName: map[string]*Axiom{},
 		Types: map[string]*DataType{}, Ghosts: map[string]*GhostVar{}, ImportsOf: map[*Contract]map[string]string{},
-		FnOf: map[*Contract]*ssa.Function{}, PkgInv: map[string][]*PkgInvariant{}}
+		FnOf: map[*Contract]*ssa.Function{}, PkgInv: map[string][]*PkgInvariant{}, Refines: map[string]*Refinement{}}
 	addFile := func(sf *SpecFile, pkg string) {
 		for _, f := range sf.Funcs {
 			if _, dup := w.Funcs[f.Name]; dup {
@@ -56,6 +65,7 @@ func loadWorld(p *Program, specDirs []string) (*World, error) {
 			w.Ghosts[g.Name] = g
 			w.GhostList = append(w.GhostList, g.Name)
 		}
+		w.Impls = append(w.Impls, sf.Impls...)
 		for _, iv := range sf.Invariants {
 			w.PkgInv[iv.Pkg] = append(w.PkgInv[iv.Pkg], iv)
 		}
@@ -115,6 +125,38 @@ func loadWorld(p *Program, specDirs []string) (*World, error) {
 			return nil, err
 		}
 		addFile(sf, pk)
+	}
+	// refinements: every method of the interface that has a contract, on the implementing type
+	for _, ib := range w.Impls {
+		ipath, iname := w.splitQual(ib.Iface, ib.Pkg, ib.Imports)
+		pk := w.P.ByPath[ipath]
+		if pk == nil || pk.Types.Scope().Lookup(iname) == nil {
+			w.Orphans = append(w.Orphans, fmt.Sprintf("%s:%d: impl of unknown interface %s", ib.File, ib.Line, ib.Iface))
+			continue
+		}
+		it, ok := pk.Types.Scope().Lookup(iname).Type().Underlying().(*types.Interface)
+		if !ok {
+			w.Orphans = append(w.Orphans, fmt.Sprintf("%s:%d: %s is not an interface", ib.File, ib.Line, ib.Iface))
+			continue
+		}
+		n := 0
+		for i := 0; i < it.NumMethods(); i++ {
+			m := it.Method(i)
+			con := w.Contracts[ipath+"."+iname+"."+m.Name()]
+			if con == nil {
+				continue
+			}
+			fn := w.P.lookupFunc(ib.Pkg, "("+ib.Recv+")."+m.Name())
+			if fn == nil {
+				w.Orphans = append(w.Orphans, fmt.Sprintf("%s:%d: impl (%s) %s: method %s not found", ib.File, ib.Line, ib.Recv, ib.Iface, m.Name()))
+				continue
+			}
+			w.Refines[funcKey(fn)] = &Refinement{Impl: ib, Con: con, Fn: fn}
+			n++
+		}
+		if n == 0 {
+			w.Orphans = append(w.Orphans, fmt.Sprintf("%s:%d: impl (%s) %s: no method with a contract", ib.File, ib.Line, ib.Recv, ib.Iface))
+		}
 	}
 	if len(w.Errors) > 0 {
 		return nil, fmt.Errorf("CONTRACT-ERROR: %s", strings.Join(w.Errors, "; "))
